@@ -126,7 +126,7 @@ func (t *c20concThread) admits(op *c20Op) bool {
 		return t.own(op.a, "float")
 	case "tupleType":
 		return t.own(op.a, "types")
-	case "vsAdd", "vsRemove":
+	case "vsAdd", "vsRemove", "psRemove":
 		return op.a >= t.ng0
 	case "psAdd":
 		if op.a < t.ng0 {
@@ -208,7 +208,7 @@ func c20concCase(ctx *Ctx) {
 			}
 			t.noteSpent(op)
 			t.ops, t.wires, t.lits, t.expect = append(t.ops, op), append(t.wires, wire), append(t.lits, lit), append(t.expect, s)
-			if c20mutators[op.name] || op.name == "vsAdd" || op.name == "vsRemove" || op.name == "psAdd" {
+			if c20mutators[op.name] || op.name == "vsAdd" || op.name == "vsRemove" || op.name == "psAdd" || op.name == "psRemove" {
 				t.nMut++
 			}
 			ctx.Tag("conc:step:" + op.name)
